@@ -511,9 +511,9 @@ def ignore_pattern(kind, path):
     if kind == "ign_base":
         return b
     if kind == "ign_dir":
-        return d if d != "src" else None
+        return d if d not in ("src", "") else None
     if kind == "ign_dirslash":
-        return pp.basename(d) + "/" if d != "src" else None
+        return pp.basename(d) + "/" if d not in ("src", "") else None
     if kind == "ign_glob":
         return d + "/*.rs"
     if kind == "ign_dstar":
@@ -835,17 +835,22 @@ STRUCTURAL = {"form", "root", "neg", "dup"}
 
 
 def levels(tier):
+    """The thorough tier starts with exactly the quick tier's levels (so that the first, smallest failing
+    representative of a deviation signature is the same case in both tiers) and then extends them."""
+    q = [
+        {"name": "L0", "k": 0, "shapes": QUICK_SHAPES, "policy": "full"},
+        {"name": "L1", "k": 1, "shapes": QUICK_SHAPES, "policy": "full-on-chains"},
+        {"name": "L2-small", "k": 2, "shapes": [(0, 1), (0, 1, 0)], "policy": "all"},
+    ]
     if tier == "quick":
-        return [
-            {"name": "L0", "k": 0, "shapes": QUICK_SHAPES, "policy": "full"},
-            {"name": "L1", "k": 1, "shapes": QUICK_SHAPES, "policy": "full-on-chains"},
-            {"name": "L2-small", "k": 2, "shapes": [(0, 1), (0, 1, 0)], "policy": "all"},
-        ]
-    return [
-        {"name": "L0", "k": 0, "shapes": THOROUGH_SHAPES, "policy": "full"},
-        {"name": "L1", "k": 1, "shapes": THOROUGH_SHAPES, "policy": "full"},
+        return q
+    extra_shapes = [s for s in THOROUGH_SHAPES if s not in QUICK_SHAPES]
+    return q + [
+        {"name": "L0-more-shapes", "k": 0, "shapes": extra_shapes, "policy": "full"},
+        {"name": "L1-more-shapes", "k": 1, "shapes": extra_shapes, "policy": "full"},
+        {"name": "L1-full-decoys", "k": 1, "shapes": [s for s in QUICK_SHAPES if not _is_chain(s)], "policy": "full"},
         {"name": "L2-small-full-decoys", "k": 2, "shapes": [(0,), (0, 1)], "policy": "full-structural"},
-        {"name": "L2", "k": 2, "shapes": [s for s in THOROUGH_SHAPES if s not in [(0,), (0, 1)]], "policy": "all"},
+        {"name": "L2", "k": 2, "shapes": [s for s in THOROUGH_SHAPES if s not in [(0,), (0, 1), (0, 1, 0)]], "policy": "all"},
         {"name": "L3-small", "k": 3, "shapes": [(0,), (0, 1)], "policy": "all"},
     ]
 
@@ -872,24 +877,46 @@ def _depth(shape):
     return max(d.values())
 
 
-def enumerate_plans(tier, lvl, failing, run=None, shapes=None):
-    """failing: {shape tuple: [frozenset of deviation strings]} of plans that already failed.
-    A plan is pruned when a failing plan on the same shape or on a prefix shape (the same tree minus the
-    last declared nodes) uses a subset of its deviations: the smaller failing case is the report."""
+def kind_str(dv):
+    """A deviation without its node index (the root keeps its index: a marker on the root is another thing)."""
+    if len(dv) == 3:
+        if dv[0] == "mark" and dv[1] == 0:
+            return "mark0=%s" % dv[2]
+        return "%s=%s" % (dv[0], dv[2])
+    return "%s=%s" % (dv[0], dv[1])
+
+
+def plan_sig(devs):
+    return tuple(sorted(kind_str(d) for d in devs))
+
+
+def sig_subset(a, b):
+    """multiset inclusion of sorted tuples"""
+    if len(a) > len(b):
+        return False
+    rest = list(b)
+    for x in a:
+        if x in rest:
+            rest.remove(x)
+        else:
+            return False
+    return True
+
+
+def enumerate_plans(tier, lvl, failing_sigs, run=None, shapes=None):
+    """failing_sigs: deviation signatures (deviation kinds without node indices) of plans that already
+    failed.  A plan whose signature contains a failing signature is pruned: the earlier, smaller failing
+    case is the report, and the pruned plans are counted."""
     plans = []
     for shape in (shapes if shapes is not None else lvl["shapes"]):
         A = alphabet(shape, tier)
-        bad = []
-        for s2, sets in failing.items():
-            if shape[:len(s2)] == s2:
-                bad += [(s2, b) for b in sets]
         for devs in itertools.combinations(A, lvl["k"]):
             if not compatible(devs):
                 continue
-            ds = frozenset(dev_str(d) for d in devs)
-            if any(b <= ds and (b != ds or s2 != shape) for s2, b in bad):
+            sig = plan_sig(devs)
+            if any(sig_subset(f, sig) for f in failing_sigs):
                 if run is not None:
-                    run.count("pruned_supersets_of_failing_plans")
+                    run.count("plans_pruned_signature_contains_a_failing_signature")
                 continue
             pol = lvl["policy"]
             if pol == "full-structural":
